@@ -575,7 +575,7 @@ def run(F, R, tier, cfg):
     vd = view_inv_discharge_factory(vts, M)
     PN.EXTRA_DISCHARGERS.append(vd)
     try:
-        PN.check_entries(F, R, "C02", fns, cfg)
+        PN.check_entries(F, R, "C02", fns, cfg, underflow_armed=r"view::StandardPathView::try_reverse$")
     finally:
         PN.EXTRA_DISCHARGERS.remove(vd)
 
